@@ -256,7 +256,7 @@ tagspec(struct scope *s)
 					et = typehasint(&typeint, value, e->type->u.basic.issigned) ? &typeint : e->type;
 				else if (!typehasint(et, value, e->type->u.basic.issigned))
 					goto invalid;
-			} else if (value == 0 && !et->u.basic.issigned || value == 1ull << 63 && et->u.basic.issigned) {
+			} else if (enumconsts && (value == 0 && !et->u.basic.issigned || value == 1ull << 63 && et->u.basic.issigned)) {
 				error(&tok.loc, "no %ssigned integer type can represent enumerator value", et->u.basic.issigned ? "" : "un");
 			} else if (!typehasint(et, value, et->u.basic.issigned)) {
 				if (t->base) {
